@@ -268,6 +268,7 @@ def run(ctx, rep):
             autom[r.name] = None
             rep.undecided("C02.4", f"{lcons}:{r.name}", f"pattern outside the supported fragment: {ex}")
     token_shadowing(ctx, rep, lx, autom)
+    identifier_components(ctx, rep, lx, autom)
     line = [r for r in lx.rules if autom.get(r.name) and autom[r.name][0].accepts("//x")]
     block = [r for r in lx.rules if autom.get(r.name) and autom[r.name][0].accepts("/**/")]
     if not line:
@@ -332,10 +333,12 @@ def run(ctx, rep):
                 rep.violation("C02.4", c2, f"the block-comment rule matches {wit!r} as ONE comment (greedy body): everything between the first `/*` and the last `*/` of the text is dropped, including statements", loc, witness=wit)
     # (d) whitespace
     c2 = f"{lcons}:ignore"
-    if set(lx.ignore) <= {" ", "\t"} and " " in lx.ignore:
-        rep.ok("C02.4", c2, "only blanks and tabs are skipped")
+    # blanks, tabs and carriage returns (Windows line ends) may be skipped; a newline never (it separates statements)
+    if set(lx.ignore) <= {" ", "\t", "\r"} and " " in lx.ignore and "\t" in lx.ignore:
+        rep.ok("C02.4", c2, "only blanks, tabs and carriage returns are skipped")
     else:
-        rep.violation("C02.4", c2, f"`ignore` is {lx.ignore!r}: " + ("newlines are skipped, so statements on consecutive lines are joined" if "\n" in lx.ignore else "spaces are not skipped"), lx.cls.loc())
+        extra = set(lx.ignore) - {" ", "\t", "\r"}
+        rep.violation("C02.4", c2, f"`ignore` is {lx.ignore!r}: " + ("newlines are skipped, so statements on consecutive lines are joined" if "\n" in lx.ignore else (f"{sorted(extra)} are skipped silently" if extra else "blanks or tabs are not skipped")), lx.cls.loc())
     nl = lx.rule("NL")
     c2 = f"{lcons}:NL"
     if nl is not None and not nl.ignored and nl.returns_token and autom.get("NL") and autom["NL"][0].included_in(lang(r"\n+")) is None and lang(r"\n+").included_in(autom["NL"][0]) is None:
@@ -392,3 +395,39 @@ def token_shadowing(ctx, rep, lx, autom):
         else:
             e, w = shadow
             rep.violation("C02.8", cons, f"{w!r} is in the language of {r.name}, but the earlier rule {e.name} matches a prefix of it and wins: the text is split into other tokens and rejected (or mis-parsed)", loc, witness=w)
+
+
+def identifier_components(ctx, rep, lx, autom):
+    """C02.9: the lexer's identifier tokens are qualified identifiers in the sense of core.identifier: components
+    joined by single periods, each component a valid identifier (so `a.5` is `a` followed by the number `.5`)."""
+    from ..regex import lang, Unsupported
+    ix = ctx.ix
+    rep.rule("C02.9", "every IDENTIFIER / DOTIDENTIFIER token is a period-joined sequence of components that each satisfy core.identifier's definition of an identifier", floor=2)
+    idm = ix.modules.get("jaqalpaq.core.identifier")
+    pat = None
+    if idm is not None:
+        for st in idm.tree.body:
+            if isinstance(st, ast.Assign) and isinstance(st.value, ast.Call) and st.value.args and isinstance(st.value.args[0], ast.Constant) and "compile" in ast.unparse(st.value.func):
+                pat = st.value.args[0].value
+    if pat is None:
+        raise AnalysisError("C02.9: core.identifier.valid_identifier_regex not found")
+    comp = pat.strip("^$")
+    lcons = "parser.slyparse:" + lx.cls.name
+    try:
+        qual = lang(f"{comp}(\\.{comp})*")
+        dotq = lang(f"\\.({comp}(\\.{comp})*)?")
+    except Unsupported as ex:
+        rep.undecided("C02.9", lcons + ":IDENTIFIER:components", str(ex))
+        return
+    for name, ref in (("IDENTIFIER", qual), ("DOTIDENTIFIER", dotq)):
+        r = lx.rule(name)
+        cons = f"{lcons}:{name}:components"
+        if r is None or not autom.get(name):
+            rep.undecided("C02.9", cons, "token not found")
+            continue
+        w = autom[name][0].included_in(ref)
+        loc = f"{lx.cls.path}:{r.lineno}"
+        if w is None:
+            rep.ok("C02.9", cons, f"L({name}) is included in the qualified-identifier language built from `{comp}`", loc)
+        else:
+            rep.violation("C02.9", cons, f"{w!r} is lexed as one {name} although a component of it is not an identifier: `foo a.5` is read as the single name 'a.5' while `foo a .5` is the name a and the number 0.5 (inserting a blank between two tokens changes the parse)", loc, witness=w)
